@@ -38,9 +38,12 @@ class SessionModel(object):
         self.prog = prog
         self.ip = Interp(prog, max_paths=max_paths)
         self.ip.call_hook = self._hook
+        self.ip.attr_hook = self._attr_hook
         self.ip.while_unroll = 1
         self.ip.merge_loops = True
         self.ip.unpack_may_raise = True
+        self.ip.opaque_funcs_may_raise = {'yabgp.message.update.Update.parse',
+                                          'yabgp.message.update.Update.construct'}
         self.ip.merge_call_prefixes = ('yabgp.message.',)
         self.ip.opaque_funcs = {'yabgp.message.update.Update.parse',
                                 'yabgp.message.update.Update.construct',
@@ -69,6 +72,13 @@ class SessionModel(object):
         self.base = self._build_base()
 
     # ------------------------------------------------------------------ hooks
+    def _attr_hook(self, ip, st, b, attr):
+        # configured timer values are non-negative integers (oslo IntOpt, validated at start)
+        if b.mod.dotted == 'oslo_config.cfg.CONF.time':
+            hi = 65535 if attr == 'hold_time' else INF
+            return prims.mk_sym(st, 'CONF.time.%s' % attr, 0, hi)
+        return None
+
     def _hook(self, ip, st, fv, args, kwargs, line, node):
         fq = getattr(st.cur_func(), 'qualname', None)
         if isinstance(fv, FuncV) and fv.finfo.cls is not None and \
